@@ -538,8 +538,46 @@ def rule_row_reduction(repo: Repo, rep: Report) -> int:
     return 1
 
 
+#: real-field linear algebra whose result differs from the GF(2) notion of the same name
+REAL_FIELD_CALLS = ("matrix_rank", "inv", "inverse", "pinv", "pinverse", "solve", "lstsq", "det", "slogdet", "qr", "svd", "lu", "cholesky")
+
+
+def rule_gf2_algebra(repo: Repo, rep: Report) -> int:
+    """The encoder package works on 0/1 matrices over GF(2): rank, inverse, determinant ... taken by torch / numpy over the
+    reals answer a different question (rows 110, 011, 101 have real rank 3 and GF(2) rank 2).  Expected count: zero."""
+    n = 0
+    files = [mi for mi in repo.modules.values() if mi.relpath.startswith(ENC + "/") or mi.relpath in ("kaira/models/fec/algebra.py", UTL)]
+    rep.floor("encoder / algebra modules scanned for real-field linear algebra", len(files), 10)
+    for mi in files:
+        for c in ast.walk(mi.tree):
+            if isinstance(c, ast.Call):
+                nm = call_name(c) or ""
+                short = nm.split(".")[-1]
+                if short in REAL_FIELD_CALLS and (nm.startswith("torch.") or nm.startswith("np.") or nm.startswith("numpy.") or nm.startswith("scipy.")):
+                    owner = next((f for f in list(mi.functions.values()) + [m_ for ci_ in mi.classes.values() for m_ in ci_.methods.values()] if f.node.lineno <= c.lineno <= getattr(f.node, "end_lineno", f.node.lineno)), None)
+                    where = owner if owner is not None else f"{mi.relpath}"
+                    rep.violation("G2", where, f"{unparse(c)[:90]}", f"`{nm}` is linear algebra over the reals applied in the GF(2) encoder package: real rank / inverse / determinant of a 0/1 matrix differ from their GF(2) counterparts (rows 110, 011, 101: real rank 3, GF(2) rank 2), so rows or columns that the code needs are dropped or kept wrongly", node=c)
+                    n += 1
+    rep.ok("G2", f"{ENC}/", f"real-field rank / inverse / determinant calls in {len(files)} encoder and algebra modules: {n}", "GF(2) quantities are computed by the package's own GF(2) elimination", nontrivial=False) if n == 0 else None
+    # the check matrix LDPCCodeEncoder publishes is the one its generator was derived from
+    ci = repo.cls(f"{ENC}/ldpc_code.py", "LDPCCodeEncoder")
+    init = repo.method(ci, "__init__")
+    sup = [c for c in ast.walk(init.node) if isinstance(c, ast.Call) and unparse(c.func) == "super().__init__"]
+    gen = [s_ for s_ in ast.walk(init.node) if isinstance(s_, ast.Assign) and isinstance(s_.value, ast.Call) and attr_chain(s_.value.func) == "self.get_generator_matrix" and s_.value.args]
+    harg = next((k.value for c in sup for k in c.keywords if k.arg == "check_matrix"), None)
+    if len(sup) != 1 or len(gen) != 1 or not isinstance(harg, ast.Name) or not isinstance(gen[0].value.args[0], ast.Name):
+        rep.undecided("G2", init, "LDPC: published check matrix", "super().__init__(check_matrix=<name>) / generator_matrix = self.get_generator_matrix(<name>) not found")
+        return n + 2
+    src = gen[0].value.args[0].id
+    between = [s_ for s_ in ast.walk(init.node) if isinstance(s_, (ast.Assign, ast.AugAssign, ast.AnnAssign)) and gen[0].lineno < s_.lineno <= sup[0].lineno and any(isinstance(t_, ast.Name) and t_.id in (src, harg.id) and isinstance(t_.ctx, ast.Store) for tg in (s_.targets if isinstance(s_, ast.Assign) else [s_.target]) for t_ in ast.walk(tg))]
+    same = harg.id == src and not between
+    rep.shape(same, False, "G2", init, f"LDPC: generator derived from `{src}`, published check matrix `{harg.id}`" + (f" (re-bound at line {between[0].lineno}: {unparse(between[0])[:60]})" if between else ""), "the published H is the very matrix the generator was computed from: same code, rank n - k", "the published check matrix is not the matrix the generator was computed from", node=sup[0])
+    return n + 2
+
+
 def run(repo: Repo, rep: Report, tier: str) -> None:
     n = rule_encode_form(repo, rep)
+    n += rule_gf2_algebra(repo, rep)
     n += rule_row_reduction(repo, rep)
     n += rule_overrides(repo, rep)
     n += rule_systematic_matrix(repo, rep)
